@@ -36,9 +36,16 @@ PROPS = {
     'C12': dict(modules=['NutsProofs.Props.C12'], suites=[S('db-mixed', (60, 150), (1500, 200))]),
     'C13': dict(modules=['NutsProofs.Props.C13'], suites=[S('db-structs', (40, 150), (1000, 200)), S('db-list', (40, 150), (1000, 200))]),
     'C15': dict(modules=['NutsProofs.Props.C15'], suites=[S('db-merge', (60, 150), (1500, 200))]),
+    'C19': dict(modules=['NutsProofs.Props.C19'],
+                suites=[S('db-optskv', (64, 120), (1600, 200)), S('db-optsmixed', (64, 120), (1600, 200))],
+                assumptions=['cases come in groups of 16 (key/value scripts: RWMode x StartFileLoadingMode x SyncEnable x the two RAM index modes) or 8 (all structures, key+value mode) that run the same generated script; each run is compared with the one model, which forgets the I/O options at Open',
+                             'sparse index mode is not modelled: its agreement on key/value operations is not checked']),
     'C21': dict(modules=['NutsProofs.Props.C21'],
                 suites=[S('codec', (4, 500), (40, 4000), env_thorough={'VERIF_CODEC_ALLBITS': '1'})],
                 assumptions=['field values within their Go types (sizes < 2^32, ids and timestamps < 2^64); keys non-empty (tx.put rejects empty keys)',
                              'a flip inside a size field, and truncation, are enumerated against the implementation (tests), not proved: whether the CRC of the differently delimited string collides depends on the following bytes']),
+    'C22': dict(modules=['NutsProofs.Props.C22'], suites=[S('modes', (250, 5), (4000, 5))],
+                assumptions=['the listing-level model decides the mode check only; an accepted Open is then the business of the database model',
+                             'sparse-mode workloads are generated (key/value operations) but their contents are not modelled']),
     'C16': dict(modules=['NutsProofs.Props.C16'], suites=[S('db-mcrash', (50, 150), (1200, 200))]),
 }
